@@ -450,9 +450,25 @@ void adfFreeDirList ( struct AdfList * const list )
  * adfGetRDirEnt
  *
  */
+static struct AdfList * adfGetRDirEntBudget_ ( struct AdfVolume * const vol,
+                                               const SECTNUM            nSect,
+                                               const BOOL               recurs,
+                                               int32_t * const          budget );
+
 struct AdfList * adfGetRDirEnt ( struct AdfVolume * const vol,
                                  const SECTNUM            nSect,
                                  const BOOL               recurs )
+{
+    /* a volume cannot hold more entries than blocks: the budget stops the
+       walk on cyclic hash chains and on directories that contain themselves */
+    int32_t budget = vol->lastBlock - vol->firstBlock + 1;
+    return adfGetRDirEntBudget_ ( vol, nSect, recurs, &budget );
+}
+
+static struct AdfList * adfGetRDirEntBudget_ ( struct AdfVolume * const vol,
+                                               const SECTNUM            nSect,
+                                               const BOOL               recurs,
+                                               int32_t * const          budget )
 {
     struct bEntryBlock entryBlk;
     struct AdfList *cell, *head;
@@ -465,6 +481,11 @@ struct AdfList * adfGetRDirEnt ( struct AdfVolume * const vol,
 
     if (adfEnv.useDirCache && isDIRCACHE(vol->dosType))
         return (adfGetDirEntCache(vol, nSect, recurs ));
+
+    if ( --(*budget) < 0 ) {
+        (*adfEnv.wFct)("adfGetRDirEnt : more entries than blocks (cycle?)");
+        return NULL;
+    }
 
 
     if (adfReadEntryBlock(vol,nSect,&parent)!=RC_OK)
@@ -498,11 +519,16 @@ struct AdfList * adfGetRDirEnt ( struct AdfVolume * const vol,
              }
 
              if (recurs && entry->type==ST_DIR)
-                 cell->subdir = adfGetRDirEnt(vol,entry->sector,recurs);
+                 cell->subdir = adfGetRDirEntBudget_(vol,entry->sector,recurs,budget);
 
              /* same hashcode linked list */
              nextSector = entryBlk.nextSameHash;
              while( nextSector!=0 ) {
+                 if ( --(*budget) < 0 ) {
+                     (*adfEnv.wFct)("adfGetRDirEnt : more entries than blocks (cycle?)");
+                     adfFreeDirList(head);
+                     return NULL;
+                 }
                  entry = ( struct AdfEntry * ) malloc ( sizeof ( struct AdfEntry ) );
                  if (!entry) {
                      adfFreeDirList(head);
@@ -525,7 +551,7 @@ struct AdfList * adfGetRDirEnt ( struct AdfVolume * const vol,
                  }
 				 
                  if (recurs && entry->type==ST_DIR)
-                     cell->subdir = adfGetRDirEnt(vol,entry->sector,recurs);
+                     cell->subdir = adfGetRDirEntBudget_(vol,entry->sector,recurs,budget);
 				 
                  nextSector = entryBlk.nextSameHash;
              }
